@@ -1,5 +1,6 @@
 import Driver.Scalar
 import Driver.Arrays
+import Driver.Bits
 /- vdriver: reads one operation per line, prints the model's canonical result line. -/
 open Driver
 
@@ -12,7 +13,9 @@ def runLine (line : String) : String :=
     | some r => r
     | none => match arrayOp toks with
       | some r => r
-      | none => "bad-op"
+      | none => match bitsOp toks with
+        | some r => r
+        | none => "bad-op"
 
 partial def loop (h : IO.FS.Stream) (out : IO.FS.Stream) : IO Unit := do
   let line ← h.getLine
